@@ -1,0 +1,44 @@
+//go:build verif
+// +build verif
+
+package tar
+
+import "context"
+
+// PubsubForVerif exposes the package's pubsub to a verification harness.
+type PubsubForVerif struct{ ps *pubsub }
+
+// NewPubsubForVerif returns the real pubsub bound to ctx.
+func NewPubsubForVerif(ctx context.Context) *PubsubForVerif { return &PubsubForVerif{newPubsub(ctx)} }
+
+// Emit calls pubsub.Emit.
+func (p *PubsubForVerif) Emit(key string) { p.ps.Emit(key) }
+
+// Wait calls pubsub.Wait.
+func (p *PubsubForVerif) Wait(key string) { p.ps.Wait(key) }
+
+// BufferPoolForVerif exposes the package's bufferPool to a verification harness.
+type BufferPoolForVerif struct{ p *bufferPool }
+
+// BufferForVerif is one buffer handed out by the pool.
+type BufferForVerif struct{ b *buffer }
+
+// NewBufferPoolForVerif returns the real buffer pool.
+func NewBufferPoolForVerif(bufferSize, maxBuffers uint64) *BufferPoolForVerif {
+	return &BufferPoolForVerif{newBufferPool(bufferSize, maxBuffers)}
+}
+
+// Wait calls bufferPool.Wait.
+func (p *BufferPoolForVerif) Wait() *BufferForVerif { return &BufferForVerif{p.p.Wait()} }
+
+// Count reports how many buffers the pool has provisioned.
+func (p *BufferPoolForVerif) Count() int64 { return p.p.count }
+
+// Cap reports the pool's maximum number of buffers.
+func (p *BufferPoolForVerif) Cap() int { return cap(p.p.buffers) }
+
+// Data returns the buffer's bytes.
+func (b *BufferForVerif) Data() []byte { return b.b.Data }
+
+// Done calls buffer.Done.
+func (b *BufferForVerif) Done() { b.b.Done() }
